@@ -28,6 +28,8 @@ def run(prog, chk):
     from props import geomalg
     geomalg.check_sites(prog, chk, "C12")
     geomalg.check(prog, chk, "C12", floor=17)
+    from props import C11
+    C11.shape_pipeline(prog, chk)  # surround/inside/margin are consumed only in the shape pipeline
 
 
 def _lit(body, t, i):
